@@ -491,6 +491,8 @@ class SessionRec:
                 descs.append(c)
             if "pt" in ev:
                 feed_pt(ev["pt"])
+            for q in ev.get("pts", ()):
+                feed_pt(q)
         for c in descs:
             feed_box(c["box"])
             feed_pt(c["cpt"])
@@ -561,6 +563,8 @@ class SessionRec:
                         w = rb[x][1] - rb[x][0]
                         rel.append(int(round((raw[x] - rb[x][0]) / w * (1 << 30))) if w > 0 and math.isfinite(w) else -1)
                     e["rel"] = rel
+            if "pts" in e:
+                e["pts"] = [[rk(x, q[x]) for x in range(d)] if q is not None and len(q) == d else [0] * d for q in ev["pts"]]
             e.pop("msg", None)
             e.pop("ptrepr", None)
             out.append(e)
